@@ -3933,6 +3933,38 @@ async fn run_rtp_direct_loop(
         match ice_state {
             crate::transports::ice::IceTransportState::Connected
             | crate::transports::ice::IceTransportState::Completed => {
+                // SDES-SRTP keys come from *both* descriptions. An answerer reaches
+                // Connected (start_direct in set_remote_description) before it has set
+                // its local answer, and set_remote_description stores the remote
+                // description only after start_direct: wait for both instead of failing
+                // the transport start.
+                loop {
+                    let Some(inner) = inner_weak.upgrade() else {
+                        return;
+                    };
+                    if inner.config.transport_mode != TransportMode::Srtp
+                        || (inner.local_description.lock().is_some()
+                            && inner.remote_description.lock().is_some())
+                        || *inner.peer_state.borrow() == PeerConnectionState::Closed
+                        || !matches!(
+                            *ice_state_rx.borrow(),
+                            crate::transports::ice::IceTransportState::Connected
+                                | crate::transports::ice::IceTransportState::Completed
+                        )
+                    {
+                        break;
+                    }
+                    drop(inner);
+                    tokio::time::sleep(std::time::Duration::from_millis(5)).await;
+                }
+                if !matches!(
+                    *ice_state_rx.borrow(),
+                    crate::transports::ice::IceTransportState::Connected
+                        | crate::transports::ice::IceTransportState::Completed
+                ) {
+                    // ICE went away while waiting (stop / failure): handle the new state.
+                    continue;
+                }
                 if !handle_connected_state_no_dtls(&inner_weak, &mut ice_state_rx).await {
                     return;
                 }
